@@ -236,9 +236,18 @@ def check_case(case, acc):
             want = RAP.ap_from_ranking(rseq, Gn)
             for oname, inp in orders.items():
                 acc.exec()
+                shape0 = [len(x) for x in inp] if oname != "flat" else len(inp)
                 a = Ap(mcls(), inp, Gn, [AutowareLabel.CAR], MatchingMode.CENTERDISTANCE, [1.0])
                 acc.compared()
                 vals[mname] = a.ap
+                if oname != "flat" and L <= 4:
+                    # scoring must not modify the caller's per-frame lists, and scoring the same container again gives the same value
+                    a2 = Ap(mcls(), inp, Gn, [AutowareLabel.CAR], MatchingMode.CENTERDISTANCE, [1.0])
+                    acc.exec()
+                    if [len(x) for x in inp] != shape0:
+                        bad("ap:container-mutated", "Ap modified the caller's per-frame result lists: %s -> %s" % (shape0, [len(x) for x in inp]))
+                    if repr(a2.ap) != repr(a.ap):
+                        bad("ap:re-evaluation-differs", "scoring the same results again gives %r, first %r" % (a2.ap, a.ap))
                 if not AR.close(a.ap, want):
                     bad("ap-value:" + mname, "%s=%r for ranking %s with %d ground truths (input %s), reference %s" % (mname, a.ap, "".join(seq), Gn, oname, want))
                 if nT <= Gn and want is not None and not (-1e-12 <= a.ap <= 1 + 1e-9):
